@@ -3,8 +3,10 @@ import Logrange.Model.Wire
 # Lemmas about the wire decoders (C13)
 
 `Fine L o`: the outcome `o` of a decoder is not a panic and a byte count it returns is at most `L`.
-`Good d`: on every buffer without a length varint of the F13 class (`Safe`), decoder `d` is `Fine` — it passes every
-bounds check of the code it mirrors and never claims to have read more than the buffer holds.
+`Good P d`: on every buffer satisfying `P`, decoder `d` is `Fine` — it passes every bounds check of the code it mirrors and
+never claims to have read more than the buffer holds. `P = Safe` (no length varint of the F13 class) for the stored-record
+decoder that still calls the library directly; `P = IsGoSlice` (the length fits an `int`, no condition on the content) for
+the api/rpc decoders, whose string reads go through the length guard of commit dbbc1a7.
 `Good` is closed under the sequencing idiom `Dec.next`, which gives the composite decoders.
 -/
 namespace Logrange.Wire
@@ -13,7 +15,12 @@ open Go Logrange Outcome
 def Fine (L : Nat) (o : Outcome (Nat × β)) : Prop :=
   o.isPanic = false ∧ ∀ n x, o = .ok (n, x) → n ≤ L
 
-def Good (d : Dec α) : Prop := ∀ b, Safe b → Fine b.length (d b)
+/-- decoder `d` is `Fine` on every buffer that satisfies `P` (`P` = `Safe` for decoders that call the library's
+`UnmarshalBytes` directly, `P` = `IsGoSlice` — no condition on the content — for the guarded api/rpc decoders) -/
+def Good (P : Bytes → Prop) (d : Dec α) : Prop := ∀ b, P b → Fine b.length (d b)
+
+/-- the buffer predicate survives `buf[k:]` -/
+def DropClosed (P : Bytes → Prop) : Prop := ∀ b k, P b → P (b.drop k)
 
 theorem fine_err {L : Nat} : Fine L (.err : Outcome (Nat × β)) := ⟨rfl, by intro n x h; cases h⟩
 
@@ -25,6 +32,13 @@ theorem Safe.drop {b : Bytes} (h : Safe b) (k : Nat) : Safe (b.drop k) := by
   have := h (k + j)
   simpa [List.drop_drop] using this
 
+theorem safe_dropClosed : DropClosed Safe := fun _ k h => h.drop k
+
+theorem goSlice_dropClosed : DropClosed IsGoSlice := by
+  intro b k h
+  unfold IsGoSlice at *
+  simp only [List.length_drop]; omega
+
 theorem Safe.at {b : Bytes} (h : Safe b) : SafeAt b := by simpa using h 0
 
 theorem wrap64_of_lt {x : Int} (h0 : 0 ≤ x) (h1 : x < 9223372036854775808) : wrap64 x = x := by
@@ -35,25 +49,25 @@ theorem wrap64_of_lt {x : Int} (h0 : 0 ≤ x) (h1 : x < 9223372036854775808) : w
 
 /-! ### fixed-width decoders -/
 
-theorem good_byte : Good unmarshalByte := by
+theorem good_byte {P : Bytes → Prop} : Good P unmarshalByte := by
   intro b _
   cases b with
   | nil => exact fine_err
   | cons x r => exact fine_ok (by simp)
 
-theorem good_u16 : Good unmarshalUint16 := by
+theorem good_u16 {P : Bytes → Prop} : Good P unmarshalUint16 := by
   intro b _; unfold unmarshalUint16
   split
   · exact fine_err
   · exact fine_ok (by omega)
 
-theorem good_u32 : Good unmarshalUint32 := by
+theorem good_u32 {P : Bytes → Prop} : Good P unmarshalUint32 := by
   intro b _; unfold unmarshalUint32
   split
   · exact fine_err
   · exact fine_ok (by omega)
 
-theorem good_u64 : Good unmarshalUint64 := by
+theorem good_u64 {P : Bytes → Prop} : Good P unmarshalUint64 := by
   intro b _; unfold unmarshalUint64
   split
   · exact fine_err
@@ -120,7 +134,38 @@ theorem fine_unmarshalBytes (b : Bytes) (hs : SafeAt b) : Fine b.length (unmarsh
       rw [slice_ok_of hb, bind_ok]
       exact fine_ok (by omega)
 
-theorem good_bytes : Good unmarshalBytes := fun b hs => fine_unmarshalBytes b hs.at
+theorem good_bytes : Good Safe unmarshalBytes := fun b hs => fine_unmarshalBytes b hs.at
+
+/-- **the guarded string decoder of api/rpc never panics**, whatever the bytes: either the guard rejects the length, or the
+length fits the bytes left and the library call is inside its safe range (`len(buf)` is an `int`). -/
+theorem fine_rpcString (b : Bytes) (hb : IsGoSlice b) : Fine b.length (rpcStringG true b) := by
+  unfold rpcStringG
+  cases hu : unmarshalUint b with
+  | ok p =>
+    obtain ⟨idx, v⟩ := p
+    simp only []
+    split
+    · exact fine_err
+    · rename_i hc
+      have hidx : idx ≤ b.length := by
+        have := uvarintGo_le b 0 0 0 idx v hu
+        omega
+      apply fine_unmarshalBytes
+      intro idx' v' hu'
+      rw [hu] at hu'
+      cases hu'
+      unfold IsGoSlice at hb
+      simp only [true_and, Nat.not_lt] at hc
+      omega
+  | err => exact fine_unmarshalBytes b (by intro i v h; rw [hu] at h; cases h)
+  | outOfFuel => exact fine_unmarshalBytes b (by intro i v h; rw [hu] at h; cases h)
+  | panic w => exact fine_unmarshalBytes b (by intro i v h; rw [hu] at h; cases h)
+
+theorem good_rpcString (hg : Generated.C13.rpcStringLengthGuard = true) : Good IsGoSlice rpcString := by
+  intro b hb
+  show Fine b.length (rpcStringG Generated.C13.rpcStringLengthGuard b)
+  rw [hg]
+  exact fine_rpcString b hb
 
 /-- converse direction, used for the class predicate: a panic of `UnmarshalBytes` exhibits the varint -/
 theorem unmarshalBytes_panic {b : Bytes} (h : (unmarshalBytes b).isPanic = true) :
@@ -135,13 +180,13 @@ theorem unmarshalBytes_panic {b : Bytes} (h : (unmarshalBytes b).isPanic = true)
 
 /-! ### sequencing -/
 
-theorem next_fine {d : Dec α} {k : Nat → α → Outcome (Nat × β)} {buf : Bytes} {nn : Nat}
-    (hd : Good d) (hs : Safe buf) (hnn : nn ≤ buf.length)
+theorem next_fine {P : Bytes → Prop} {d : Dec α} {k : Nat → α → Outcome (Nat × β)} {buf : Bytes} {nn : Nat}
+    (hP : DropClosed P) (hd : Good P d) (hs : P buf) (hnn : nn ≤ buf.length)
     (hk : ∀ n a, nn + n ≤ buf.length → Fine buf.length (k (nn + n) a)) :
     Fine buf.length (Dec.next nn buf d k) := by
   unfold Dec.next
   rw [sliceFrom_ok_of hnn, bind_ok]
-  have hg := hd (buf.drop nn) (hs.drop nn)
+  have hg := hd (buf.drop nn) (hP _ nn hs)
   cases hdb : d (buf.drop nn) with
   | err => exact fine_err
   | outOfFuel => exact ⟨rfl, by intro n x h; cases h⟩
@@ -155,13 +200,13 @@ theorem next_fine {d : Dec α} {k : Nat → α → Outcome (Nat × β)} {buf : B
     exact hk n a (by omega)
 
 /-- `Dec.next` when the continuation produces something that is not a (count, value) pair: only "no panic" -/
-theorem next_noPanic {d : Dec α} {k : Nat → α → Outcome β} {buf : Bytes} {nn : Nat}
-    (hd : Good d) (hs : Safe buf) (hnn : nn ≤ buf.length)
+theorem next_noPanic {P : Bytes → Prop} {d : Dec α} {k : Nat → α → Outcome β} {buf : Bytes} {nn : Nat}
+    (hP : DropClosed P) (hd : Good P d) (hs : P buf) (hnn : nn ≤ buf.length)
     (hk : ∀ n a, nn + n ≤ buf.length → (k (nn + n) a).isPanic = false) :
     (Dec.next nn buf d k).isPanic = false := by
   unfold Dec.next
   rw [sliceFrom_ok_of hnn, bind_ok]
-  have hg := hd (buf.drop nn) (hs.drop nn)
+  have hg := hd (buf.drop nn) (hP _ nn hs)
   cases hdb : d (buf.drop nn) with
   | err => rfl
   | outOfFuel => rfl
@@ -176,66 +221,66 @@ theorem next_noPanic {d : Dec α} {k : Nat → α → Outcome β} {buf : Bytes} 
 
 /-! ### composite decoders -/
 
-theorem good_event : Good Event.unmarshal := by
+theorem good_event : Good Safe Event.unmarshal := by
   intro b hs
   unfold Event.unmarshal
-  refine next_fine good_byte hs (by omega) ?_
+  refine next_fine safe_dropClosed good_byte hs (by omega) ?_
   intro n1 hdr h1
-  refine next_fine good_u64 hs h1 ?_
+  refine next_fine safe_dropClosed good_u64 hs h1 ?_
   intro n2 ts h2
-  refine next_fine good_bytes hs h2 ?_
+  refine next_fine safe_dropClosed good_bytes hs h2 ?_
   intro n3 msg h3
   split
-  · refine next_fine good_bytes hs h3 ?_
+  · refine next_fine safe_dropClosed good_bytes hs h3 ?_
     intro n4 flds h4
     exact fine_ok h4
   · exact fine_ok h3
 
-theorem good_logEvent : Good unmarshalLogEvent := by
+theorem good_logEvent (hg : Generated.C13.rpcStringLengthGuard = true) : Good IsGoSlice unmarshalLogEvent := by
   intro b hs
   unfold unmarshalLogEvent
-  refine next_fine good_u64 hs (by omega) ?_
+  refine next_fine goSlice_dropClosed good_u64 hs (by omega) ?_
   intro n1 ts h1
-  refine next_fine good_bytes hs h1 ?_
+  refine next_fine goSlice_dropClosed (good_rpcString hg) hs h1 ?_
   intro n2 msg h2
-  refine next_fine good_bytes hs h2 ?_
+  refine next_fine goSlice_dropClosed (good_rpcString hg) hs h2 ?_
   intro n3 tags h3
-  refine next_fine good_bytes hs h3 ?_
+  refine next_fine goSlice_dropClosed (good_rpcString hg) hs h3 ?_
   intro n4 flds h4
   exact fine_ok h4
 
-theorem good_queryRequest : Good unmarshalQueryRequest := by
+theorem good_queryRequest (hg : Generated.C13.rpcStringLengthGuard = true) : Good IsGoSlice unmarshalQueryRequest := by
   intro b hs
   unfold unmarshalQueryRequest
-  refine next_fine good_u64 hs (by omega) ?_
+  refine next_fine goSlice_dropClosed good_u64 hs (by omega) ?_
   intro n1 _ h1
-  refine next_fine good_bytes hs h1 ?_
+  refine next_fine goSlice_dropClosed (good_rpcString hg) hs h1 ?_
   intro n2 _ h2
-  refine next_fine good_bytes hs h2 ?_
+  refine next_fine goSlice_dropClosed (good_rpcString hg) hs h2 ?_
   intro n3 _ h3
-  refine next_fine good_u16 hs h3 ?_
+  refine next_fine goSlice_dropClosed good_u16 hs h3 ?_
   intro n4 _ h4
-  refine next_fine good_u32 hs h4 ?_
+  refine next_fine goSlice_dropClosed good_u32 hs h4 ?_
   intro n5 _ h5
-  refine next_fine good_u32 hs h5 ?_
+  refine next_fine goSlice_dropClosed good_u32 hs h5 ?_
   intro n6 _ h6
   exact fine_ok h6
 
-theorem fine_events (buf : Bytes) (hs : Safe buf) :
+theorem fine_events (hg : Generated.C13.rpcStringLengthGuard = true) (buf : Bytes) (hs : IsGoSlice buf) :
     ∀ (k nn : Nat) (acc : List ApiEvent), nn ≤ buf.length → Fine buf.length (unmarshalEvents buf k nn acc)
   | 0, nn, acc, h => by unfold unmarshalEvents; exact fine_ok h
   | k + 1, nn, acc, h => by
     unfold unmarshalEvents
-    refine next_fine good_logEvent hs h ?_
+    refine next_fine goSlice_dropClosed (good_logEvent hg) hs h ?_
     intro n e hn
-    exact fine_events buf hs k (nn + n) (e :: acc) hn
+    exact fine_events hg buf hs k (nn + n) (e :: acc) hn
 
-theorem good_queryResult : Good unmarshalQueryResult := by
+theorem good_queryResult (hg : Generated.C13.rpcStringLengthGuard = true) : Good IsGoSlice unmarshalQueryResult := by
   intro b hs
   unfold unmarshalQueryResult
-  refine next_fine good_u32 hs (by omega) ?_
+  refine next_fine goSlice_dropClosed good_u32 hs (by omega) ?_
   intro n1 ln h1
-  have hev := fine_events b hs ln (0 + n1) [] h1
+  have hev := fine_events hg b hs ln (0 + n1) [] h1
   cases he : unmarshalEvents b ln (0 + n1) [] with
   | err => exact fine_err
   | outOfFuel => exact ⟨rfl, by intro n x h; cases h⟩
@@ -245,22 +290,22 @@ theorem good_queryResult : Good unmarshalQueryResult := by
     rw [he] at hev
     have hnn := hev.2 nn evs rfl
     rw [bind_ok]
-    refine next_fine good_queryRequest hs hnn ?_
+    refine next_fine goSlice_dropClosed (good_queryRequest hg) hs hnn ?_
     intro n2 q h2
     exact fine_ok h2
 
 /-! ### wpIterator -/
 
 /-- invariant of the server-side iterator over a write packet -/
-def WpInv (it : WpIter) : Prop := Safe it.buf ∧ it.pos ≤ it.buf.length
+def WpInv (it : WpIter) : Prop := IsGoSlice it.buf ∧ it.pos ≤ it.buf.length
 
-theorem wpInit_noPanic (kv : Bytes → Option Bytes) (buf : Bytes) (hs : Safe buf) : (wpInit kv buf).isPanic = false := by
+theorem wpInit_noPanic (hg : Generated.C13.rpcStringLengthGuard = true) (kv : Bytes → Option Bytes) (buf : Bytes) (hs : IsGoSlice buf) : (wpInit kv buf).isPanic = false := by
   unfold wpInit
-  refine next_noPanic good_bytes hs (by omega) ?_
+  refine next_noPanic goSlice_dropClosed (good_rpcString hg) hs (by omega) ?_
   intro n1 tags h1
-  refine next_noPanic good_bytes hs h1 ?_
+  refine next_noPanic goSlice_dropClosed (good_rpcString hg) hs h1 ?_
   intro n2 flds h2
-  refine next_noPanic good_u32 hs h2 ?_
+  refine next_noPanic goSlice_dropClosed good_u32 hs h2 ?_
   intro n3 ln h3
   split <;> rfl
 
@@ -275,20 +320,20 @@ theorem next_eq_ok {d : Dec α} {k : Nat → α → Outcome β} {buf : Bytes} {n
     exact ⟨p.1, p.2, hp, by assumption, h⟩
   · cases hb
 
-theorem wpInit_inv (kv : Bytes → Option Bytes) (buf : Bytes) (hs : Safe buf) (it : WpIter)
+theorem wpInit_inv (kv : Bytes → Option Bytes) (buf : Bytes) (hs : IsGoSlice buf) (it : WpIter)
     (h : wpInit kv buf = .ok it) : WpInv it ∧ it.buf = buf := by
   unfold wpInit at h
   obtain ⟨n1, tags, hd1, hl1, h⟩ := next_eq_ok h
   obtain ⟨n2, flds, hd2, hl2, h⟩ := next_eq_ok h
   obtain ⟨n3, ln, hd3, hl3, h⟩ := next_eq_ok h
-  have b3 := (good_u32 (buf.drop (0 + n1 + n2)) (hs.drop _)).2 n3 ln hd3
+  have b3 := (good_u32 (P := IsGoSlice) (buf.drop (0 + n1 + n2)) (goSlice_dropClosed _ _ hs)).2 n3 ln hd3
   simp only [List.length_drop] at b3
   split at h
   · cases h
   · cases h
     exact ⟨⟨hs, by simp only []; omega⟩, rfl⟩
 
-theorem wpGet_noPanic (kv : Bytes → Option Bytes) (it : WpIter) (hi : WpInv it) : (wpGet kv it).isPanic = false := by
+theorem wpGet_noPanic (hg : Generated.C13.rpcStringLengthGuard = true) (kv : Bytes → Option Bytes) (it : WpIter) (hi : WpInv it) : (wpGet kv it).isPanic = false := by
   unfold wpGet
   split
   · rfl
@@ -296,14 +341,14 @@ theorem wpGet_noPanic (kv : Bytes → Option Bytes) (it : WpIter) (hi : WpInv it
     · rfl
     · simp only []
       rw [sliceFrom_ok_of hi.2, bind_ok]
-      have hg := good_logEvent (it.buf.drop it.pos) (hi.1.drop _)
+      have hg := good_logEvent hg (it.buf.drop it.pos) (goSlice_dropClosed _ _ hi.1)
       cases hd : unmarshalLogEvent (it.buf.drop it.pos) with
       | err => rfl
       | outOfFuel => rfl
       | panic w => rw [hd] at hg; have := hg.1; simp [isPanic] at this
       | ok p => rfl
 
-theorem wpGet_inv (kv : Bytes → Option Bytes) (it it' : WpIter) (r : Option Event) (hi : WpInv it)
+theorem wpGet_inv (hg : Generated.C13.rpcStringLengthGuard = true) (kv : Bytes → Option Bytes) (it it' : WpIter) (r : Option Event) (hi : WpInv it)
     (h : wpGet kv it = .ok (it', r)) : WpInv it' := by
   unfold wpGet at h
   split at h
@@ -312,7 +357,7 @@ theorem wpGet_inv (kv : Bytes → Option Bytes) (it it' : WpIter) (r : Option Ev
     · cases h; exact hi
     · simp only [] at h
       rw [sliceFrom_ok_of hi.2, bind_ok] at h
-      have hg := good_logEvent (it.buf.drop it.pos) (hi.1.drop _)
+      have hg := good_logEvent hg (it.buf.drop it.pos) (goSlice_dropClosed _ _ hi.1)
       cases hd : unmarshalLogEvent (it.buf.drop it.pos) with
       | err => rw [hd] at h; cases h; exact hi
       | outOfFuel => rw [hd] at h; cases h
@@ -327,17 +372,17 @@ theorem wpGet_inv (kv : Bytes → Option Bytes) (it it' : WpIter) (r : Option Ev
 
 theorem wpNext_inv (it : WpIter) (hi : WpInv it) : WpInv (wpNext it) := hi
 
-theorem wpDrain_noPanic (kv : Bytes → Option Bytes) :
+theorem wpDrain_noPanic (hg : Generated.C13.rpcStringLengthGuard = true) (kv : Bytes → Option Bytes) :
     ∀ (fuel : Nat) (it : WpIter) (acc : List Event), WpInv it → (wpDrain kv fuel it acc).isPanic = false
   | 0, _, _, _ => rfl
   | f + 1, it, acc, hi => by
     unfold wpDrain
-    refine bind_isPanic_false (wpGet_noPanic kv it hi) ?_
+    refine bind_isPanic_false (wpGet_noPanic hg kv it hi) ?_
     intro r hr
     obtain ⟨it', e⟩ := r
-    have hi' := wpGet_inv kv it it' e hi hr
+    have hi' := wpGet_inv hg kv it it' e hi hr
     cases e with
     | none => rfl
-    | some ev => exact wpDrain_noPanic kv f (wpNext it') (ev :: acc) (wpNext_inv it' hi')
+    | some ev => exact wpDrain_noPanic hg kv f (wpNext it') (ev :: acc) (wpNext_inv it' hi')
 
 end Logrange.Wire
